@@ -126,7 +126,7 @@ func parseContractFile(fset *token.FileSet, f *ast.File, pkgPath string) ([]*Con
 			lines = append(lines, struct {
 				text string
 				pos  string
-			}{strings.TrimSpace(t[3:]), fmt.Sprintf("%s:%d", strings.TrimPrefix(p.Filename, "/repo/"), p.Line)})
+			}{strings.TrimSpace(t[3:]), fmt.Sprintf("%s:%d", strings.TrimPrefix(p.Filename, repoRoot+"/"), p.Line)})
 		}
 	}
 	for _, ln := range lines {
